@@ -87,6 +87,7 @@ type Node struct {
 	Names []string `json:"names,omitempty"`
 	Rules []Rule   `json:"rules,omitempty"`
 	Note  string   `json:"note,omitempty"`
+	TNote string   `json:"tnote,omitempty"` // objects with properties only: a note written after the closing brace (the object's note)
 	Ann   string   `json:"ann,omitempty"` // "block" / "spread": this node's annotation is written as a multi-line annotation whatever the layout says
 }
 
@@ -528,6 +529,9 @@ func (r *renderer) node(n Node, path string, depth int, tail string) {
 			r.node(p.N, path+"/"+string(p.K)+p.Kt, depth+1, t)
 		}
 		r.sb.WriteString(r.l.NL + strings.Repeat(r.l.Indent, depth) + "}" + tail)
+		if n.TNote != "" {
+			r.sb.WriteString(" // " + n.TNote)
+		}
 	} else {
 		for i, it := range n.Items {
 			r.ownLineComments(ind, i == len(n.Items)-1)
